@@ -775,7 +775,7 @@ func (c *Component) handleSessionRelease(sessionId, username, mac, acctSessionID
 		accessIfIndex = acctSession.accessIfIndex
 		subscriberIfIndex = acctSession.swIfIndex
 
-		statsByIdx := c.fetchInterfaceStats()
+		statsByIdx := c.fetchReleaseStats(acctSession)
 		acctSession.mu.Lock()
 		rxBytes, txBytes, rxPackets, txPackets = acctSession.reportFloor()
 		if stats, ok := statsByIdx[acctSession.swIfIndex]; ok {
@@ -806,6 +806,31 @@ func (c *Component) handleSessionRelease(sessionId, username, mac, acctSessionID
 	go c.authProvider.StopAccounting(c.Ctx, session)
 
 	return nil
+}
+
+// fetchReleaseStats returns the counter source for the final Acct-Stop of
+// acctSession, keyed like fetchInterfaceStats by acctSession.swIfIndex. For
+// l2gw sessions swIfIndex is an entry index of the l2gw stats segment, not a
+// sw_if_index, so the interface table would yield an unrelated interface:
+// read the same two entries (access = input, handoff = output) the interims
+// are computed from.
+func (c *Component) fetchReleaseStats(acctSession *AccountingSession) map[uint32]*southbound.InterfaceStats {
+	if acctSession.accessType != models.AccessTypeL2GW {
+		return c.fetchInterfaceStats()
+	}
+	l2gwStats := c.fetchL2GWStats()
+	up, upOK := l2gwStats[acctSession.swIfIndex]
+	down, downOK := l2gwStats[acctSession.l2gwHandoffIndex]
+	if !upOK && !downOK {
+		return nil
+	}
+	return map[uint32]*southbound.InterfaceStats{acctSession.swIfIndex: {
+		Index:   acctSession.swIfIndex,
+		Rx:      up.Packets,
+		RxBytes: up.Bytes,
+		Tx:      down.Packets,
+		TxBytes: down.Bytes,
+	}}
 }
 
 func (c *Component) GetStatsSnapshot() []*ServerStats {
